@@ -980,6 +980,8 @@ def _reuse_tool_with_param_dict(
     """
     setup_dict = config["param_dict"].copy()
     config["param_dict"].update(param_dict)
-    retcode = tool(config, tag=tag)
-    config["param_dict"] = setup_dict
+    try:
+        retcode = tool(config, tag=tag)
+    finally:
+        config["param_dict"] = setup_dict
     return retcode
